@@ -359,6 +359,9 @@ func mkPlan(p *planIn, idx int) onlinedelivery.RecipientDeliveryPlan {
 
 func (w *world) newRuntime() *delivery.Runtime {
 	c := w.cfg
+	if w.kind != "rt" && c.QSize <= 0 {
+		c.QSize = 4 // the plan queue is not used by the push / plan kinds; keep construction cheap
+	}
 	opts := delivery.RuntimeOptions{
 		LocalNodeID: c.Local, QueueSize: c.QSize, Workers: c.Workers, PlanTimeout: 120 * time.Second,
 		MaxPlanRecipients: c.MaxRecip, OwnerPushBatchSize: c.Batch, OwnerConcurrency: c.OC,
